@@ -184,20 +184,34 @@ def _case_1d(case, spl):
                         return result(VIOL, cls=sorted(cls), events=ev, key="C08:polynomial-not-reproduced/%s" % ("fast" if cfg["fast"] else "general"),
                                       what="%s: %s polynomial of degree %d, derivative %d, at x=%r: spline %r, polynomial %r (tol %.3g)"
                                       % (name, form, deg, der, ptsx[i], got[i], exact[i], tol), witness=dict(wit0, coef=co.tolist(), form=form))
-        # complex data on clamped spaces
-        ci = spl.SplineInterpolator1D(basis, dtype=complex)
+        # complex data on clamped spaces; the complex type spelled as Python's, as numpy's scalar type or as a numpy dtype object
+        spelling = case["seed"] % 3
+        cdtype = (complex, np.complex128, np.dtype(complex))[spelling]
+        ci = spl.SplineInterpolator1D(basis, dtype=cdtype)
         u = rs.standard_normal(nb) + 1j * rs.standard_normal(nb)
         s = spl.Spline1D(basis, dtype=complex)
         ci.compute_interpolant(u.copy(), s)
         c = s.coeffs.copy()
         ev["complex_cases"] += 1
-        cls.add("%s/complex" % name)
+        cls.add("%s/complex/%s" % (name, ("python-complex", "numpy-complex128", "numpy-dtype")[spelling]))
         g = rm.spline_eval(T, c, p, xs)
         tol = C * rm.EPS * kappa * float(np.abs(u).max())
         cref = np.linalg.solve(M.astype(complex), u)
         if not np.all(np.abs(g - u) <= tol) or not np.all(np.abs(c[:nb] - cref) <= C * rm.EPS * kappa * np.abs(cref).max()):
-            return result(VIOL, cls=sorted(cls), events=ev, key="C08:complex-data-not-reproduced", what="%s: complex data not reproduced (max err %.3g, tol %.3g)"
-                          % (name, float(np.abs(g - u).max()), tol), witness=dict(wit0))
+            key = "C08:complex-data-not-reproduced" if spelling == 0 else "C08:complex-data-not-reproduced/dtype-given-as-numpy-type"
+            return result(VIOL, cls=sorted(cls), events=ev, key=key, what="%s: complex data not reproduced by SplineInterpolator1D(basis, dtype=%r) (max err %.3g, tol %.3g, max |imaginary part of the coefficients| %.3g)"
+                          % (name, cdtype, float(np.abs(g - u).max()), tol, float(np.abs(c.imag).max())), witness=dict(wit0, dtype=repr(cdtype)))
+        # history: real-typed data through the same complex interpolator into the same complex spline
+        ur = rs.standard_normal(nb)
+        ci.compute_interpolant(ur.copy(), s)
+        c2 = s.coeffs.copy()
+        cls.add("%s/complex/real-data-after-complex" % name)
+        g2 = rm.spline_eval(T, c2, p, xs)
+        tol2 = C * rm.EPS * kappa * float(np.abs(ur).max())
+        if not np.all(np.abs(g2 - ur) <= tol2):
+            return result(VIOL, cls=sorted(cls), events=ev, key="C08:complex-interpolator/real-data-after-complex-data",
+                          what="%s: real data interpolated by a complex interpolator into a spline that held complex coefficients before: data not reproduced (max err %.3g, of which imaginary %.3g; tol %.3g)"
+                          % (name, float(np.abs(g2 - ur).max()), float(np.abs(g2.imag).max()), tol2), witness=dict(wit0))
     return result(HELD, cls=sorted(cls), events=ev, n_eval=ev["interp_points_compared"] + ev["poly_points_compared"])
 
 
